@@ -9,6 +9,8 @@ use vlib::*;
 enum Shape {
     Tetra, Octa, Dodeca, Icosa,
     Box3 { lo: [f32; 3], hi: [f32; 3] },
+    /// `Box::cube(side)` (side < 0: `Box::default()`, the unit cube): extents are +-side/2 whatever the struct's fields say
+    Cube { side: f32 },
     Sphere { sec: u32, seg: u32, r: f32 },
     Torus { maj: u32, min: u32, rmaj: f32, rmin: f32 },
     Cone { sec: u32, seg: u32, capped: bool, rb: f32, ra: f32 },
@@ -41,6 +43,7 @@ fn build(s: &Shape) -> Mesh<Normal3> {
         Shape::Dodeca => Dodecahedron.build(),
         Shape::Icosa => Icosahedron.build(),
         Shape::Box3 { lo, hi } => Box { left_bot_near: pt3(lo[0], lo[1], lo[2]), right_top_far: pt3(hi[0], hi[1], hi[2]) }.build(),
+        Shape::Cube { side } => if side < 0.0 { Box::default().build() } else { Box::cube(side).build() },
         Shape::Sphere { sec, seg, r } => Sphere { sectors: sec, segments: seg, radius: r }.build(),
         Shape::Torus { maj, min, rmaj, rmin } => Torus { major_radius: rmaj, minor_radius: rmin, major_sectors: maj, minor_sectors: min }.build(),
         Shape::Cone { sec, seg, capped, rb, ra } => Cone { sectors: sec, segments: seg, capped, base_radius: rb, apex_radius: ra }.build(),
@@ -77,6 +80,7 @@ fn outward(s: &Shape, p: V3) -> Option<V3> {
     match *s {
         Shape::Tetra | Shape::Octa | Shape::Dodeca | Shape::Icosa | Shape::Sphere { .. } => Some(p),
         Shape::Box3 { lo, hi } => Some(sub(p, [(lo[0] + hi[0]) as f64 / 2.0, (lo[1] + hi[1]) as f64 / 2.0, (lo[2] + hi[2]) as f64 / 2.0])),
+        Shape::Cube { .. } => Some(p),
         // coarse tori are far from the ideal surface: orientation is decided by edge pairing + signed volume instead
         Shape::Torus { .. } => None,
         // convex solids of revolution around the y axis, centred at the origin
@@ -92,6 +96,8 @@ fn on_surface(s: &Shape, p: V3) -> Option<f64> {
         Shape::Sphere { r, .. } => Some((len(p) - r as f64).abs() / r as f64),
         Shape::Tetra | Shape::Octa | Shape::Dodeca | Shape::Icosa => None,
         Shape::Box3 { lo, hi } => Some((0..3).map(|i| (p[i] - lo[i] as f64).abs().min((p[i] - hi[i] as f64).abs())).fold(0.0, f64::max)),
+        // every vertex of a cube of side s centred at the origin is a corner: |coordinate| = s/2 on every axis
+        Shape::Cube { side } => { let h = if side < 0.0 { 0.5 } else { side as f64 / 2.0 }; Some((0..3).map(|i| (p[i].abs() - h).abs()).fold(0.0, f64::max)) }
         Shape::Torus { rmaj, rmin, .. } => Some((((rad - rmaj as f64).powi(2) + p[1] * p[1]).sqrt() - rmin as f64).abs() / rmin as f64),
         Shape::Cyl { r, .. } => Some(((rad - r as f64).abs() / r as f64).max((p[1].abs() - 1.0).max(0.0))),
         Shape::Cone { rb, ra, .. } => { let t = (p[1] + 1.0) / 2.0; let r = rb as f64 + (ra as f64 - rb as f64) * t; Some((rad - r).abs() / (rb.max(ra) as f64).max(1e-9)).map(|e| e.max((p[1].abs() - 1.0).max(0.0))) }
@@ -103,7 +109,7 @@ fn on_surface(s: &Shape, p: V3) -> Option<f64> {
 fn closed(s: &Shape) -> Option<i64> {
     // expected Euler characteristic if closed
     match *s {
-        Shape::Tetra | Shape::Octa | Shape::Dodeca | Shape::Icosa | Shape::Box3 { .. } | Shape::Sphere { .. } | Shape::Capsule { .. } => Some(2),
+        Shape::Tetra | Shape::Octa | Shape::Dodeca | Shape::Icosa | Shape::Box3 { .. } | Shape::Cube { .. } | Shape::Sphere { .. } | Shape::Capsule { .. } => Some(2),
         Shape::Torus { .. } => Some(0),
         Shape::Cone { capped, .. } | Shape::Cyl { capped, .. } => if capped { Some(2) } else { None },
         // (profiles 3 and 4 start and end on the axis: closed with or without caps)
@@ -237,6 +243,7 @@ fn check(s: &Shape, r: &mut Report) {
 fn shapes(quick: bool) -> Vec<Shape> {
     let mut v = vec![Shape::Tetra, Shape::Octa, Shape::Dodeca, Shape::Icosa];
     for (lo, hi) in [([-1.0f32; 3], [1.0f32; 3]), ([0.0, 0.0, 0.0], [1.0, 2.0, 3.0]), ([-20.0, 0.0, 0.01], [100.0, 50.0, 100.0]), ([5.0, 5.0, 5.0], [5.5, 9.0, 6.0]), ([-3.0, -2.0, -1.0], [-1.0, -1.5, 4.0])] { v.push(Shape::Box3 { lo, hi }); }
+    for side in [-1.0f32, 1.0, 2.0, 0.37, 250.0, 1e-3] { v.push(Shape::Cube { side }); }
     let (msec, mseg) = if quick { (16, 10) } else { (48, 32) };
     let radii = [0.5f32, 1.0, 3.0];
     for sec in 3..=msec { for seg in 2..=mseg { for r in radii { v.push(Shape::Sphere { sec, seg, r }); } } }
